@@ -89,9 +89,10 @@ for _cfg in CONFIGS:
         MEMBERS[_cfg] = counts
 
 
-def do_reply_cut(cfg, cut, api):
+def do_reply_cut(cfg, cut, api, lo=0, hi=None):
     base, ends, total, sent = BASE[cfg]
-    cut = cut % (total + 1)
+    hi = total + 1 if hi is None else min(hi, total + 1)
+    cut = lo + cut % (hi - lo)
     got, raised, wire = exchange(cfg[0], cfg[1], cut=cut, api=api)
     ref = base if api == 'operate' else PROC
     k = len(got)
@@ -103,20 +104,28 @@ def do_reply_cut(cfg, cut, api):
     return ok and (raised or k == len(OPS))                   # never silently fewer results than operations
 
 
+SH = 16          # offsets per shard
 for cfg in CONFIGS:
     for api in ('operate', 'process'):
-        define(globals(), 'C13', 'reply_cut_depth%d_multiple%d_%s' % (cfg[0], cfg[1], api), ['cut'], "return do_reply_cut(%r, cut, %r)" % (cfg, api), ['0 <= cut'],
-               tier='quick' if (cfg, api) in (((0, 0), 'operate'), ((1, 0), 'operate'), ((2, 200), 'operate'), ((3, 0), 'process')) else 'thorough',
-               timeout=6000, path_timeout=600, drives=DRIVES, stubs=STUBS,
-               symbolic=['cut: EVERY byte offset 0..%d of the server-to-client stream (Register reply + %d reply frames), followed by EOF' % (BASE[cfg][2], len(BASE[cfg][1]) - 1)],
-               bounds='operations %r with depth=%d, multiple=%d via connector.%s: every yielded result equals the fault-free result at the same index, no result '
-                      'for a reply not wholly received, and the result stream either ends with an exception or is complete (a reply lost entirely = cut at a frame '
-                      'boundary)' % (OPS, cfg[0], cfg[1], api), outside='timeouts without EOF; real TCP; poll.run back-off (threads + sleeps)')
+        total = BASE[cfg][2]
+        for lo in range(0, total + 1, SH):
+            hi = min(lo + SH, total + 1)
+            quick = (cfg, api) in (((0, 0), 'operate'), ((2, 200), 'operate')) or ((cfg, api) == ((3, 0), 'process') and lo in (16, 96))
+            define(globals(), 'C13', 'reply_cut_depth%d_multiple%d_%s_%03d' % (cfg[0], cfg[1], api, lo), ['cut'],
+                   "return do_reply_cut(%r, cut, %r, %d, %d)" % (cfg, api, lo, hi), ['0 <= cut < %d' % (hi - lo)],
+                   tier='quick' if quick else 'thorough', timeout=3000, path_timeout=600, drives=DRIVES, stubs=STUBS,
+                   symbolic=['cut: EVERY byte offset in [%d, %d) of the %d-byte server-to-client stream (Register reply + %d reply frames), followed by EOF' % (
+                       lo, hi, total, len(BASE[cfg][1]) - 1)],
+                   bounds='operations %r with depth=%d, multiple=%d via connector.%s: every yielded result equals the fault-free result at the same index, no '
+                          'result for a reply not wholly received, and the result stream either ends with an exception or is complete (a reply lost entirely = '
+                          'cut at a frame boundary); the shards of one configuration cover every offset' % (OPS, cfg[0], cfg[1], api),
+                   outside='timeouts without EOF; real TCP; poll.run back-off (threads + sleeps)')
 
 
-def do_request_cut(cfg, ccut):
+def do_request_cut(cfg, ccut, lo=0, hi=None):
     base, ends, total, sent = BASE[cfg]
-    ccut = ccut % (sent + 1)
+    hi = sent + 1 if hi is None else min(hi, sent + 1)
+    ccut = lo + ccut % (hi - lo)
     got, raised, wire = exchange(cfg[0], cfg[1], ccut=ccut)
     k = len(got)
     ok = got == base[:k]
@@ -126,10 +135,13 @@ def do_request_cut(cfg, ccut):
 
 
 for cfg in CONFIGS:
-    define(globals(), 'C13', 'request_cut_depth%d_multiple%d' % cfg, ['ccut'], "return do_request_cut(%r, ccut)" % (cfg,), ['0 <= ccut'],
-           tier='quick' if cfg in ((1, 0), (0, 500)) else 'thorough', timeout=6000, path_timeout=600, drives=DRIVES, stubs=STUBS,
-           symbolic=['ccut: EVERY byte offset of the client-to-server stream after which the connection breaks (peer sees a partial frame, then closes)'],
-           bounds='same exchange with the client-to-server stream cut at every offset 0..%d' % BASE[cfg][3], outside='')
+    sent = BASE[cfg][3]
+    for lo in range(0, sent + 1, 24):
+        hi = min(lo + 24, sent + 1)
+        define(globals(), 'C13', 'request_cut_depth%d_multiple%d_%03d' % (cfg[0], cfg[1], lo), ['ccut'], "return do_request_cut(%r, ccut, %d, %d)" % (cfg, lo, hi),
+               ['0 <= ccut < %d' % (hi - lo)], tier='quick' if cfg == (1, 0) and lo in (24, 72) else 'thorough', timeout=3000, path_timeout=600, drives=DRIVES, stubs=STUBS,
+               symbolic=['ccut: EVERY byte offset in [%d, %d) of the client-to-server stream after which the connection breaks (peer sees a partial frame, then closes)' % (lo, hi)],
+               bounds='same exchange (depth=%d, multiple=%d) with the client-to-server stream (%d bytes) cut at every offset of the shard' % (cfg[0], cfg[1], sent), outside='')
 
 
 # ---- proxy layer: after a failure the connection is discarded and the next use reconnects and returns correct data ---------------------------
@@ -168,8 +180,8 @@ def do_proxy(cut, depth):
     return ok and [list(v) for v in second] == [[1, 2, 3, 4], [1, 2, 3, 4, 5, 6]] and via.gateway is not None
 
 
-define(globals(), 'C13', 'proxy_discards_and_reconnects', ['cut', 'depth'], "return do_proxy(cut, depth)", ['0 <= cut and 0 <= depth <= 2'],
-       timeout=6000, path_timeout=600, drives=DRIVES + ['cpppo.server.enip.get_attribute.proxy.read', 'cpppo.server.enip.get_attribute.proxy.open_gateway',
+define(globals(), 'C13', 'proxy_discards_and_reconnects', ['cut', 'depth'], "return do_proxy(28 + cut, depth)", ['0 <= cut < 40 and 0 <= depth <= 2'],
+       tier='thorough', timeout=9000, path_timeout=600, drives=DRIVES + ['cpppo.server.enip.get_attribute.proxy.read', 'cpppo.server.enip.get_attribute.proxy.open_gateway',
                                                         'cpppo.server.enip.get_attribute.proxy.close_gateway', 'cpppo.server.enip.get_attribute.proxy.__exit__'],
        stubs=STUBS, bounds='proxy.read of two attribute ranges over a connection cut at every reply-stream offset: either correct values or an exception with '
                            'the gateway discarded; the next read (fresh connection) returns the correct data', outside='poll.run (threads, sleeps)')
@@ -196,8 +208,14 @@ def do_drop(cfg, k):
 
 for cfg in DROP_CFG:
     define(globals(), 'C13', 'reply_lost_depth%d_multiple%d' % cfg, ['k'], "return do_drop(%r, k)" % (cfg,), ['0 <= k'],
-           tier='quick' if cfg in ((2, 0), (3, 60)) else 'thorough', timeout=6000, path_timeout=600, drives=DRIVES, stubs=STUBS,
+           tier='quick' if cfg in ((2, 100),) else 'thorough', timeout=6000, path_timeout=600, drives=DRIVES, stubs=STUBS,
            symbolic=['k: which reply frame (of %d) is lost entirely; all later replies are delivered intact' % (DROP_BASE[cfg][1] - 1)],
            bounds='6 single-element reads with depth=%d, multiple=%d (so several requests / Multiple Service Packets are in flight): one whole reply frame is '
                   'lost and the following ones arrive: every yielded value belongs to its own request (no value of a later request is paired with an earlier '
                   'one) and the result stream ends with an error' % cfg, outside='loss of several replies')
+
+define(globals(), 'C13', 'proxy_discards_and_reconnects_quick', ['cut'], "return do_proxy(28 + 4 * cut, 1)", ['0 <= cut < 12'],
+       timeout=3000, path_timeout=600, drives=DRIVES + ['cpppo.server.enip.get_attribute.proxy.read', 'cpppo.server.enip.get_attribute.proxy.open_gateway',
+                                                        'cpppo.server.enip.get_attribute.proxy.close_gateway', 'cpppo.server.enip.get_attribute.proxy.__exit__'],
+       stubs=STUBS, bounds='proxy.read (depth 1) over a connection cut at every 4th reply-stream offset after the Register reply: either correct values or an exception '
+                           'with the gateway discarded; the next read (fresh connection) returns the correct data', outside='other offsets (thorough tier)')
